@@ -78,6 +78,35 @@ def long_recovery_scenario(rng, days, early, late):
     return cfg, steps
 
 
+def fine_grained_scenario(rng, recovery, offsets):
+    """ticks of 100 us: requests arrive at instants that are not whole milliseconds after the recovery began, several at each
+    instant, so that the passed fraction is compared with the ramp where the two are a fraction of a millisecond apart"""
+    cfg = {"tick_us": 100, "fallback": 20000, "recovery": recovery, "check": 10, "ast": B.NETERR, "expr": B.render(B.NETERR)}
+    steps, rid = [], 0
+    def req(code):
+        nonlocal rid
+        rid += 1
+        steps.append({"op": "start", "r": rid})
+        steps.append({"op": "finish", "r": rid, "code": code})
+    for _ in range(3):
+        req(502)
+        steps.append({"op": "adv", "d": 11})
+    steps.append({"op": "adv", "d": 20001})
+    req(200)                                   # the ramp starts here
+    at = 0
+    for off in offsets:
+        if off <= at or off > recovery:
+            continue
+        steps.append({"op": "adv", "d": off - at})
+        at = off
+        for _ in range(rng.randint(3, 8)):
+            req(200)
+    steps.append({"op": "adv", "d": recovery - at + 7})
+    for _ in range(3):
+        req(200)
+    return cfg, steps
+
+
 def scenarios(ctx):
     rng = random.Random(ctx.seed * 8111 + 12)
     quick = ctx.quick()
@@ -90,6 +119,16 @@ def scenarios(ctx):
                                             [(200, 300, 500), (400, 150, 300), (150, 500, 1500), (1000, 100, 200)]):
         cfg, steps = long_recovery_scenario(rng, days, early, late)
         out.append({"id": "long-%d" % i, "cfg": cfg, "steps": steps})
+    awkward = [[3333, 6666, 9999], [1999, 4999, 6667], [2499, 3334, 5001, 7499], [1111, 2222, 3333, 4444, 5555, 6666, 7777, 8888, 9999],
+               [6666], [3333], [9999], [666, 1333, 1999], [4999], [2501, 7501]]
+    for i, offs in enumerate(awkward if not quick else awkward[:7]):
+        for rec in (10000, 20000) if not quick else (10000,):
+            cfg, steps = fine_grained_scenario(rng, rec, [o * rec // 10000 if rec != 10000 else o for o in offs])
+            out.append({"id": "fine-%d-%d" % (i, rec), "cfg": cfg, "steps": steps})
+    for i in range(5 if quick else 60):
+        offs = sorted(rng.sample(range(1, 10000), rng.randint(3, 12)))
+        cfg, steps = fine_grained_scenario(rng, 10000, offs)
+        out.append({"id": "finernd-%d" % i, "cfg": cfg, "steps": steps})
     return out
 
 
